@@ -1,8 +1,11 @@
 package checks
 
 import (
+	"bufio"
 	"bytes"
+	"context"
 	"fmt"
+	astits "github.com/asticode/go-astits"
 
 	"verif/mc"
 	"verif/ref"
@@ -472,6 +475,39 @@ func checkC07(c *mc.Ctx) {
 			}
 		}
 	}
+	// a packet of PID A that cannot be parsed at all (its adaptation field overruns the packet), at every
+	// position including the last ones, read with an explicit packet size and with auto-detection (seekable
+	// and buffered reader): the error is reported, the packets that follow - other PIDs' - are not affected
+	{
+		for at := 2; at <= len(st.Pkts); at++ {
+			for variant := 0; variant < 2; variant++ {
+				// variant 1: PID A carries nothing after the bad packet, so that the packets behind it are other PIDs'
+				// whatever the schedule (the last packets of the stream in particular)
+				ps := append(append([]*ref.Pkt{}, st.Pkts[:at]...), &ref.Pkt{PID: 0x100, HasPL: true, CC: 1, Payload: bytes.Repeat([]byte{0x5a}, 184)})
+				for _, p := range st.Pkts[at:] {
+					if variant == 0 || p.PID != 0x100 {
+						ps = append(ps, p)
+					}
+				}
+				b := EncodePkts(ps)
+				copy(b[at*188:], []byte{0x47, 0x01, 0x00, 0x21, 0xb7, 0x02, 0xff}) // transport_private_data_length overruns the packet
+				for k, mk := range []func() *astits.Demuxer{
+					func() *astits.Demuxer {
+						return astits.NewDemuxer(context.Background(), bytes.NewReader(b), astits.DemuxerOptPacketSize(188))
+					},
+					func() *astits.Demuxer { return astits.NewDemuxer(context.Background(), bytes.NewReader(b)) },
+					func() *astits.Demuxer {
+						return astits.NewDemuxer(context.Background(), bufio.NewReader(bytes.NewReader(b)))
+					},
+				} {
+					c07Compare(c, l, DrainData(mk(), len(b)), []int{-4, at, k, variant}, b, patFirst, map[uint16]bool{0x100: true})
+					cdone++
+					n++
+				}
+			}
+			c.Ev.Class("pid-unparsable-packet", 1)
+		}
+	}
 	// garbage that is well-formed as a table of ANOTHER kind (valid CRC_32): a PAT-format section on the SDT
 	// PID or on the PMT PID naming the elementary PIDs, a PMT-format section on the SDT PID. Whatever is
 	// made of it on its own PID, every other PID is delivered as before.
@@ -503,7 +539,7 @@ func checkC07(c *mc.Ctx) {
 	c.Ev.DistinctAdd(cdone)
 	c.Ev.AddScenario(mc.Scenario{Name: "single-pid-corruption", SpaceSize: n, Executed: cdone, Exhaustive: cdone == n,
 		Bound: "every byte of every packet of PID 0x100 (PID bits excluded) x {0x00, 0xFF, ^0x01, ^0x80, +1, 0x47} plus TEI/PUSI/priority flips, every subset of its packets deleted, 4 garbage packets with its PID at every position; packets carrying a CRC-valid section of another table kind (PAT / PMT format) on the SDT, TOT and PMT PIDs at every position; all other PIDs must be unchanged"})
-	c.Ev.Require("pmt-after-pat", "pmt-before-pat", "packet-inserted", "pid-corrupted", "merge-with-duplicates")
+	c.Ev.Require("pmt-after-pat", "pmt-before-pat", "packet-inserted", "pid-corrupted", "merge-with-duplicates", "pid-unparsable-packet")
 }
 
 func indexOf(o []int, v int) int {
